@@ -510,3 +510,37 @@ pub open spec fn signed_builder(b: http::request::Builder, g: Seq<char>, k: Seq<
         #[trigger] hm_appended(hm_view(pre), AUTH_H(), v) == hm_view(parts_headers(p))
         && hv_view(v) == "Azure-HMAC-SHA256"@ + " "@ + g + " "@ + mac_spec(k, sig_input_spec(parts_method(p), parts_uri(p), pre, body))
 }
+
+// ---- F4 (finding): the specification tells apart requests that the code's `key || value` map merges -------------------
+// `?a=b&ab` has two parameters, `?ab` one: their canonical parameter strings differ ("a=b&ab" vs "ab"), while
+// get_path_and_canonicalized_parameters returns "ab" for both (executed witness: build/sign_witness_out.txt)
+pub proof fn lemma_f4_witness_spec_distinguishes_colliding_requests()
+    requires lower("a"@) == "a"@, lower("ab"@) == "ab"@,
+    ensures
+        canon_p(seq![("a"@, "b"@), ("ab"@, ""@)]) == "a=b&ab"@,
+        canon_p(seq![("ab"@, ""@)]) == "ab"@,
+        sort_key(("a"@, "b"@)) == sort_key(("ab"@, ""@)),
+{
+    reveal_strlit("a"); reveal_strlit("b"); reveal_strlit("ab"); reveal_strlit(""); reveal_strlit("="); reveal_strlit("&"); reveal_strlit("a=b&ab");
+    let p1: QPair = ("a"@, "b"@); let p2: QPair = ("ab"@, ""@);
+    assert(sort_key(p1) =~= "ab"@); assert(sort_key(p2) =~= "ab"@);
+    lemma_lex_lt_irrefl("ab"@);
+    let e = Seq::<QPair>::empty();
+    let s2 = seq![p1, p2];
+    assert(s2.drop_last() =~= seq![p1]); assert(seq![p1].drop_last() =~= e);
+    assert(sort_pairs(e) =~= e);
+    assert(sort_pairs(seq![p1]) =~= seq![p1]) by { assert(insert_sorted(e, p1) =~= seq![p1]); }
+    assert(sort_pairs(s2) =~= s2) by { assert(insert_sorted(seq![p1], p2) =~= seq![p1].push(p2)); assert(seq![p1].push(p2) =~= s2); }
+    assert(segment(p1) =~= "a=b"@) by { reveal_strlit("a=b"); }
+    assert(segment(p2) =~= "ab"@);
+    let g2 = segments(s2);
+    assert(g2 =~= seq![segment(p1), segment(p2)]);
+    assert(g2.drop_last() =~= seq![segment(p1)]);
+    assert(join_amp(seq![segment(p1)]) == segment(p1));
+    assert(join_amp(g2) =~= "a=b&ab"@) by { reveal_strlit("a=b"); }
+    let s1 = seq![p2];
+    assert(s1.drop_last() =~= e);
+    assert(sort_pairs(s1) =~= s1) by { assert(insert_sorted(e, p2) =~= seq![p2]); }
+    assert(segments(s1) =~= seq![segment(p2)]);
+    assert(join_amp(segments(s1)) =~= "ab"@);
+}
